@@ -224,7 +224,7 @@ pub fn c06(tier: Tier) -> Check {
                 at: Box::new(|i| {
                     let mut spec = kind_template((i / 256) as usize);
                     spec.set_padding((i % 256) as u8);
-                    BuildCase { spec, how: How { wrap: i % 3 == 1, fb_owned: i % 2 == 1, single_compound: false, owned: i % 4 == 3 }, salt: i }
+                    BuildCase { spec, how: How { wrap: i % 3 == 1, fb_owned: i % 2 == 1, single_compound: false, owned: i % 4 == 3, probe: i % 5 == 2 }, salt: i }
                 }),
                 oracle: c06_oracle,
                 exhaustive: true,
@@ -260,7 +260,7 @@ pub fn c06(tier: Tier) -> Check {
                     };
                     BuildCase {
                         spec: PacketSpec::Fb(FbSpec { kind, sender: 0, media: 0, fci, padding: [0u8, 4, 3][(i / 10) as usize] }),
-                        how: How { fb_owned: i % 4 < 2, wrap: i % 3 == 0, single_compound: false, owned: false },
+                        how: How { fb_owned: i % 4 < 2, wrap: i % 3 == 0, single_compound: false, owned: false, probe: false },
                         salt: i,
                     }
                 }),
@@ -491,7 +491,7 @@ pub fn c16(tier: Tier) -> Check {
                 at: Box::new(|i| {
                     let mut spec = kind_template((i / 256) as usize);
                     spec.set_padding((i % 256) as u8);
-                    BuildCase { spec, how: How { wrap: i % 3 == 1, fb_owned: i % 2 == 1, single_compound: false, owned: i % 4 == 3 }, salt: 0 }
+                    BuildCase { spec, how: How { wrap: i % 3 == 1, fb_owned: i % 2 == 1, single_compound: false, owned: i % 4 == 3, probe: i % 5 == 2 }, salt: 0 }
                 }),
                 oracle: c16_oracle,
                 exhaustive: true,
@@ -678,7 +678,7 @@ pub fn c17(tier: Tier) -> Check {
                 at: Box::new(|i| {
                     let mut spec = kind_template((i / 64) as usize);
                     spec.set_padding(((i % 64) * 4) as u8);
-                    BuildCase { spec, how: How { wrap: i % 3 == 1, fb_owned: i % 2 == 1, single_compound: i % 7 == 6, owned: i % 4 == 3 }, salt: i }
+                    BuildCase { spec, how: How { wrap: i % 3 == 1, fb_owned: i % 2 == 1, single_compound: i % 7 == 6, owned: i % 4 == 3, probe: i % 5 == 2 }, salt: i }
                 }),
                 oracle: c17_oracle,
                 exhaustive: true,
@@ -906,7 +906,7 @@ pub fn c14(tier: Tier) -> Check {
                         }
                         _ => {}
                     }
-                    BuildCase { spec: PacketSpec::Compound(vec![a, b]), how: How { wrap: i % 2 == 1, fb_owned: i % 3 == 1, single_compound: false, owned: i % 4 == 3 }, salt: 0 }
+                    BuildCase { spec: PacketSpec::Compound(vec![a, b]), how: How { wrap: i % 2 == 1, fb_owned: i % 3 == 1, single_compound: false, owned: i % 4 == 3, probe: i % 5 == 2 }, salt: 0 }
                 }),
                 oracle: c14_oracle,
                 exhaustive: true,
